@@ -114,7 +114,9 @@ extern real_t verif_nan_value, verif_inf_value;
 #define VERIF_IDX(i, n, what) ({ unsigned long verif_i = (i); __CPROVER_assert(verif_thrown || verif_i < (n), what); verif_i; })
 #define ARR_IDX(i, n) VERIF_IDX(i, n, "std::array index in bounds")
 #define VEC_AT(v, i) ((v).data[VERIF_IDX(i, (v).size, "vector index in bounds")])
-#define VEC_AT_CHECKED(v, i) VEC_AT(v, i)   /* .at(): throws instead of UB; treated as obligation (stronger) */
+/* .at(): std::out_of_range instead of UB; the exception flag is raised inside the expression and the translator
+   leaves the function right after the statement (obligations in between are guarded by verif_thrown) */
+#define VEC_AT_CHECKED(v, i) ((v).data[({ unsigned long verif_i = (i); if (!(verif_i < (v).size)) verif_thrown = 1; verif_i; })])
 #define VEC_SIZE(v) ((c_ulong)(v).size)
 #define VEC_INIT_EMPTY(v) ((v).size = 0)
 #define VEC_CLEAR(v) ((v).size = 0)
@@ -124,6 +126,7 @@ extern real_t verif_nan_value, verif_inf_value;
     __typeof__(v) verif_h; unsigned long verif_n = (n); __CPROVER_assume(verif_h.size == (v).size); \
     __CPROVER_assume(__CPROVER_forall { unsigned long verif_q; (verif_q >= verif_n) ==> verif_h.data[verif_q] == (v).data[verif_q] }); (v) = verif_h; } while (0)
 #define OPQ_ELEM(c, i) ((void)(i), (c_opaque)0)
+#define OPQ_ID(x) ((const void *)(unsigned long)(x))
 /* v.data() / s.c_str(): only meaningful as the argument of a modelled library call */
 #define VEC_DATA(v) (v)
 /* strtof & co. read up to the terminating NUL: it must lie inside the buffer */
